@@ -26,6 +26,18 @@ pub mod mock {
         fn write_register(&mut self, a: R, s: u32, d: &[u8]) -> Result<(), ()> { log(format!("w:{}:{}:{}", a.to(), s, hex(d))); Ok(()) }
         fn read_register(&mut self, a: R, s: u32, d: &mut [u8]) -> Result<(), ()> { log(format!("r:{}:{}:{}", a.to(), s, d.len())); fill(d); Ok(()) }
     }
+    impl<R: AsI128, C, B> ::device_driver::AsyncRegisterInterface for Mock<R, C, B> {
+        type Error = (); type AddressType = R;
+        async fn write_register(&mut self, a: R, s: u32, d: &[u8]) -> Result<(), ()> { log(format!("w:{}:{}:{}", a.to(), s, hex(d))); Ok(()) }
+        async fn read_register(&mut self, a: R, s: u32, d: &mut [u8]) -> Result<(), ()> { log(format!("r:{}:{}:{}", a.to(), s, d.len())); fill(d); Ok(()) }
+    }
+    /// The mock's futures are ready at once: poll until done with a no-op waker.
+    pub fn block_on<F: core::future::Future>(f: F) -> F::Output {
+        let mut f = core::pin::pin!(f);
+        let w = std::task::Waker::noop();
+        let mut cx = std::task::Context::from_waker(&w);
+        loop { if let std::task::Poll::Ready(v) = f.as_mut().poll(&mut cx) { return v; } }
+    }
     impl<R, C: AsI128, B> ::device_driver::CommandInterface for Mock<R, C, B> {
         type Error = (); type AddressType = C;
         fn dispatch_command(&mut self, a: C, si: u32, i: &[u8], so: u32, o: &mut [u8]) -> Result<(), ()> { log(format!("c:{}:{}:{}:{}:{}", a.to(), si, hex(i), so, o.len())); fill(o); Ok(()) }
@@ -142,6 +154,16 @@ def gen_device_code(modname, c, af, rng, devname=None):
                             f"let l = mock::take(); match r {{ Ok(v) => println!(\"{t} ok {{}} {{}}\", l, v.unwrap_or_default()), Err(_) => println!(\"{t} panic {{}}\", l) }} }}")
                 lines.append({"tag": t, "kind": "access", "action": aname, "chain": [(m["name"], i) for m, i in zip(ch, tup)],
                               "valid": is_valid, "leaf": leaf, "leaf_pos": leaf_pos})
+    # read_all_registers of the root block and its async twin: what the callback is told against what the bus saw
+    # (the root block only: in other blocks the reported address is block-relative, known finding F2)
+    if "register_address_type" in cfg and not (c["adef"].get("config", {}).get("defmt_feature")):
+        for twin in ("sync", "async"):
+            t = f"{modname}.R{tag}"; tag += 1
+            cb = "|a, n, _| mock::log(format!(\"cb:{}:{}\", mock::AsI128::to(a), n))"
+            call = f"dev.read_all_registers({cb})" if twin == "sync" else f"mock::block_on(dev.read_all_registers_async({cb}))"
+            code.append(f"    {{ let r = std::panic::catch_unwind(|| {{ let mut dev = m::{dev}::new(M::new()); {call}.is_ok() }}); "
+                        f"let l = mock::take(); match r {{ Ok(_) => println!(\"{t} ok {{}}\", l), Err(_) => println!(\"{t} panic {{}}\", l) }} }}")
+            lines.append({"tag": t, "kind": "read_all", "twin": twin})
     # field sets: constructors, getters and setters of raw / bool fields on a few byte patterns
     for fs in af["field_sets"][:12]:
         n = fs["size_bytes"]
@@ -266,6 +288,7 @@ def wire_expected(action, op, addr):
 def compare(c, af, lines, printed, want_addr, mf=None):
     """Returns a list of (why, line) mismatches."""
     bad = []
+    sync_log = "-"
     mops = model_ops(mf)
     cfg = c["adef"].get("config", {})
     regs = {o["name"]: o for o in oracles.all_objects(c["adef"]["objects"]) if o["kind"] == "register"}
@@ -303,6 +326,23 @@ def compare(c, af, lines, printed, want_addr, mf=None):
                 exp = wire_expected(ln["action"], op, inst["address"])
                 if exp is not None and logs[0] != exp:
                     bad.append((f"{ln['action']} put `{logs[0]}` on the wire, the Lean models of the accessor and the operation give `{exp}`", ln["chain"]))
+        elif ln["kind"] == "read_all":
+            if w[0] == "panic":
+                continue   # an address-arithmetic panic on a valid index is reported through the accessor lines
+            logs = w[1].split(";") if len(w) > 1 and w[1] != "-" else []
+            prev = None
+            for x in logs:
+                f = x.split(":")
+                if f[0] == "cb":
+                    if prev is None or prev[0] != "r" or prev[1] != f[1]:
+                        bad.append((f"read_all_registers{'_async' if ln['twin'] == 'async' else ''} reports address {f[1]} for {f[2] if len(f) > 2 else '?'}, "
+                                    f"the read before it went to {prev[1] if prev else 'nowhere'}", "root block"))
+                        break
+                prev = f
+            if ln["twin"] == "sync":
+                sync_log = w[1] if len(w) > 1 else "-"
+            elif (w[1] if len(w) > 1 else "-") != sync_log:
+                bad.append((f"read_all_registers_async visits / reports `{w[1] if len(w) > 1 else '-'}`, read_all_registers `{sync_log}`", "root block"))
         elif ln["kind"] in ("get", "set"):
             mw = ln.get("model", ["fail"])
             if mw[0] != "ok":
